@@ -1,25 +1,75 @@
 (** The two repair parameters of the hook model ([chk20], [ret]) and the shape facts the model relies on, read off
-    the Go source by tools/gotocoq/ics20hook (Gen/Ics20HookGen.v, regenerated on every run). *)
+    the Go source by tools/gotocoq/ics20hook (Gen/Ics20HookGen.v, regenerated on every run).
+
+    The translator emits the statements of Keeper.OnRecvPacket that matter as a list ([src_hook]); guards are
+    classified by data flow (which call produced the tested value), not by their text, so renaming a variable,
+    writing `20` for common.AddressLength, deleting the dead `IBCDenom` error branch or reordering the early-return
+    guards re-checks, while a `return nil`, a dropped guard, a conversion on the parent context, a write() before the
+    error test, a different amount / denomination / receiver in the message does not. *)
 From Coq Require Import List Bool Arith.
 From Teleport Require Import Base.Bytes Base.Outcome Model.Ics20 Gen.Ics20HookGen.
 Import ListNotations.
 
-Definition is_src_ack (r : src_return) : bool := match r with SrcAck => true | _ => false end.
+Definition ret_eqb (a b : src_return) : bool :=
+  match a, b with SrcAck, SrcAck | SrcNil, SrcNil | SrcOther, SrcOther => true | _, _ => false end.
+
+Definition guard_code (g : src_guard) : nat :=
+  match g with GDecode => 0 | GAmount => 1 | GRecvLen => 2 | GDenomErr => 3 | GNotRegistered => 4 | GConvertErr => 5 | GOther => 6 end.
+Definition guard_eqb (a b : src_guard) : bool := Nat.eqb (guard_code a) (guard_code b).
+
+(** the leading early-return guards and what follows them *)
+Fixpoint split_guards (l : list src_stmt) : list (src_guard * src_return) * list src_stmt :=
+  match l with
+  | SGuard g r :: t => let (gs, rest) := split_guards t in ((g, r) :: gs, rest)
+  | _ => ([], l)
+  end.
+
+Definition has_guard (g : src_guard) (gs : list (src_guard * src_return)) : bool :=
+  existsb (fun x => guard_eqb (fst x) g) gs.
+Definition count_guard (g : src_guard) (gs : list (src_guard * src_return)) : nat :=
+  length (filter (fun x => guard_eqb (fst x) g) gs).
+
+(** Normal form of the hook: the early-return guards (decode error first — everything else reads the decoded data —
+    then, in any order, amount, [receiver length], [the dead IBCDenom error], not registered; nothing unknown, none
+    twice), then ConvertCoin on the cache context with the message built from the packet, then its error test, then
+    write(), then the final return; every return statement returns the same thing.
+    Result: is the receiver-length guard there, and what is returned. *)
+Definition shape_of (l : list src_stmt) : option (bool * src_return) :=
+  let (gs, rest) := split_guards l in
+  match rest with
+  | [SConvert true true; SGuard GConvertErr r1; SWrite; SReturn r2] =>
+      match gs with
+      | (GDecode, _) :: _ =>
+          if has_guard GAmount gs && has_guard GNotRegistered gs &&
+             negb (has_guard GOther gs) && negb (has_guard GConvertErr gs) &&
+             Nat.eqb (count_guard GDecode gs) 1 && Nat.leb (count_guard GAmount gs) 1 &&
+             Nat.leb (count_guard GRecvLen gs) 1 && Nat.leb (count_guard GNotRegistered gs) 1 &&
+             Nat.leb (count_guard GDenomErr gs) 1 &&
+             forallb (fun x => ret_eqb (snd x) r2) gs && ret_eqb r1 r2
+          then Some (has_guard GRecvLen gs, r2) else None
+      | _ => None
+      end
+  | _ => None
+  end.
 
 (** what the hook returns according to the source: the acknowledgement it was given iff EVERY return statement
-    returns the (never reassigned) `ack` parameter; a `return nil` anywhere makes the model return nil *)
+    returns the (never reassigned) acknowledgement parameter; `return nil` makes the model return nil; anything else
+    is outside the model (the obligation then fails on [src_shape_ok]) *)
 Definition src_ret : ack -> option ack :=
-  if forallb is_src_ack src_hook_returns && negb src_hook_ack_reassigned
-  then (fun a => Some a) else (fun _ => None).
+  match shape_of src_hook with
+  | Some (_, SrcAck) => if src_hook_ack_reassigned then (fun _ => None) else (fun a => Some a)
+  | _ => (fun _ => None)
+  end.
 
-Definition src_chk20 : bool := src_hook_len_guard.
+Definition src_chk20 : bool :=
+  match shape_of src_hook with Some (c, _) => c | None => false end.
 
-(** seven return statements (decode error, amount error, receiver length, IBCDenom error, not registered,
-    ConvertCoin error, success); ConvertCoin on the cache context; write() once, after the error test; the middleware
-    is "wrapped app; error ack -> return it; else keeper hook"; OnTimeoutPacket inherited; OnAcknowledgementPacket =
-    wrapped app then the keeper's no-op *)
+(** the hook has the normal form; the denomination is IBCDenom(destination port, destination channel, data.Denom);
+    write() is called exactly once; the middleware is "wrapped app; error ack -> return it; else keeper hook";
+    OnTimeoutPacket inherited; OnAcknowledgementPacket = wrapped app then the keeper's no-op *)
 Definition src_shape_ok : bool :=
-  Nat.eqb (length src_hook_returns) 7 && src_hook_convert_on_cache_ctx && src_hook_write_once_after_error_test &&
+  match shape_of src_hook with Some _ => true | None => false end &&
+  src_hook_denom_from_dest && Nat.eqb src_hook_write_calls 1 &&
   src_mw_recv_shape && src_mw_timeout_inherited && src_mw_ack_shape && src_keeper_ack_noop.
 
 Section Source.
@@ -34,3 +84,37 @@ Section Source.
   Definition hook_from_source :=
     hook_gen state sha256 decode parse_int from_bech32 is_registered convert src_chk20 src_ret.
 End Source.
+
+(** [shape_of] on the shapes the history of the code went through (independent of the regenerated term) *)
+Definition shape_head : list src_stmt :=
+  [SGuard GDecode SrcAck; SGuard GAmount SrcAck; SGuard GRecvLen SrcAck; SGuard GDenomErr SrcAck;
+   SGuard GNotRegistered SrcAck; SConvert true true; SGuard GConvertErr SrcAck; SWrite; SReturn SrcAck].
+
+Example shape_of_head : shape_of shape_head = Some (true, SrcAck).
+Proof. reflexivity. Qed.
+
+(** harmless rewrites keep the normal form: dead branch deleted, guards reordered *)
+Example shape_of_harmless :
+  shape_of [SGuard GDecode SrcAck; SGuard GRecvLen SrcAck; SGuard GNotRegistered SrcAck; SGuard GAmount SrcAck;
+            SConvert true true; SGuard GConvertErr SrcAck; SWrite; SReturn SrcAck] = Some (true, SrcAck).
+Proof. reflexivity. Qed.
+
+(** harmful ones do not: no length guard (e0a53b0 reverted) changes the parameter; `return nil` (6fec139 reverted)
+    changes what is returned; parent context, write() before the error test, an error acknowledgement on one path,
+    a dropped registration test have no normal form *)
+Example shape_of_harmful :
+  shape_of [SGuard GDecode SrcAck; SGuard GAmount SrcAck; SGuard GDenomErr SrcAck; SGuard GNotRegistered SrcAck;
+            SConvert true true; SGuard GConvertErr SrcAck; SWrite; SReturn SrcAck] = Some (false, SrcAck) /\
+  shape_of [SGuard GDecode SrcNil; SGuard GAmount SrcNil; SGuard GRecvLen SrcNil; SGuard GNotRegistered SrcNil;
+            SConvert true true; SGuard GConvertErr SrcNil; SWrite; SReturn SrcNil] = Some (true, SrcNil) /\
+  shape_of [SGuard GDecode SrcAck; SGuard GAmount SrcAck; SGuard GRecvLen SrcAck; SGuard GNotRegistered SrcAck;
+            SConvert false true; SGuard GConvertErr SrcAck; SWrite; SReturn SrcAck] = None /\
+  shape_of [SGuard GDecode SrcAck; SGuard GAmount SrcAck; SGuard GRecvLen SrcAck; SGuard GNotRegistered SrcAck;
+            SConvert true true; SWrite; SGuard GConvertErr SrcAck; SReturn SrcAck] = None /\
+  shape_of [SGuard GDecode SrcAck; SGuard GAmount SrcAck; SGuard GRecvLen SrcAck; SGuard GNotRegistered SrcAck;
+            SConvert true true; SGuard GConvertErr SrcOther; SWrite; SReturn SrcAck] = None /\
+  shape_of [SGuard GDecode SrcAck; SGuard GAmount SrcAck; SGuard GRecvLen SrcAck;
+            SConvert true true; SGuard GConvertErr SrcAck; SWrite; SReturn SrcAck] = None /\
+  shape_of [SGuard GDecode SrcAck; SGuard GAmount SrcAck; SGuard GRecvLen SrcAck; SGuard GNotRegistered SrcAck;
+            SConvert true false; SGuard GConvertErr SrcAck; SWrite; SReturn SrcAck] = None.
+Proof. repeat split; reflexivity. Qed.
